@@ -249,17 +249,17 @@ def handle (req impl : String) : String × String :=
   | ["cmap", text, st, codes] =>
     match bytesOfHex? text, parseCodes codes with
     | some t, some cs =>
-      if t.any (· ≥ 0x80) then
-        -- non-ASCII text is outside the tokenizer model; a crash is still a failure to map
-        ("out-of-model", if impl.startsWith "panic" || impl.startsWith "abort" then "fail:panic-in-cmap-parse" else "na")
-      else
-      let m := C26.parse t
-      let model := dump m ++ ";Q=" ++ query m cs
-      let oracle := if st == "-" then "na" else
-        match parseSpec st with
-        | some sp => oracleCmap sp cs impl
-        | none => "na"
-      (model, oracle)
+      -- a crash on any input is a failure to map (the property: every code is mapped or rejected)
+      let crashed := impl.startsWith "panic" || impl.startsWith "abort" || impl.startsWith "timeout"
+      match C26.parseText t with
+      | none => ("err:parse", if crashed then "fail:panic-in-cmap-parse" else "na")
+      | some m =>
+        let model := dump m ++ ";Q=" ++ query m cs
+        let oracle := if crashed then "fail:panic-in-cmap-parse" else if st == "-" then "na" else
+          match parseSpec st with
+          | some sp => oracleCmap sp cs impl
+          | none => "na"
+        (model, oracle)
     | _, _ => ("bad-request", "na")
   | ["build", len, adds, codes] =>
     match len.toNat?, parseAdds adds, parseCodes codes with
